@@ -318,6 +318,9 @@ func (w *World) DeliverRaw(kind string, signer *actors.Account, meta map[string]
 	if !e.OK {
 		oc = fmt.Sprintf("%s/%d", res.Codespace, res.Code)
 	}
+	if !e.OK && os.Getenv("SAOMON_TXLOG") != "" {
+		fmt.Fprintf(os.Stderr, "TXFAIL h=%d %s: %.400s\n", e.Height, kind, res.Log)
+	}
 	w.Trace = append(w.Trace, kind+":"+oc)
 	w.Counters["tx"]++
 	w.Counters["tx."+kind+"."+map[bool]string{true: "ok", false: "fail"}[e.OK]]++
